@@ -242,6 +242,23 @@ def analyse_eq(ctx, fi: FuncInfo) -> EqShape:
                 and all(_side(x, self_names, other_names) for x in kl.elts + kr.elts)
             ):
                 l, r = kl, kr  # plain fields only; anything else is left to the projection rule below
+            elif (
+                isinstance(kl, ast.Tuple) and isinstance(kr, ast.Tuple) and len(kl.elts) == len(kr.elts) and (kl is not l or kr is not r)
+                and all(_side(x, self_names, other_names) or _deep_side(x, self_names, other_names) for x in kl.elts + kr.elts)
+                and any(_deep_side(x, self_names, other_names) for x in kl.elts)
+            ):
+                # a key method that looks *into* a field (`self.operation.operation_id`): the plain members are
+                # compared, the field itself only through that view
+                if not isinstance(op, ast.Eq if positive else ast.NotEq):
+                    sh.problems.append((node, f"fields compared with {type(op).__name__}, not equality"))
+                    return
+                for a, b in zip(kl.elts, kr.elts):
+                    da, db = _deep_side(a, self_names, other_names), _deep_side(b, self_names, other_names)
+                    if da and db and da[1:] == db[1:] and {da[0], db[0]} == {"self", "other"}:
+                        sh.weak[da[1]] = "@." + da[2]
+                    else:
+                        pair(node, a, b)
+                return
             want = ast.Eq if positive else ast.NotEq
             # tuple comparison: (self.a, self.b) == (o.a, o.b)
             if isinstance(l, ast.Tuple) and isinstance(r, ast.Tuple) and len(l.elts) == len(r.elts):
@@ -731,6 +748,18 @@ def _const_pred(node, var, value):
     return r if isinstance(r, bool) else None
 
 
+def _deep_side(x, self_names, other_names):
+    """`<who>.<field>.<more>` -> (who, field, more)"""
+    chain, e = [], x
+    while isinstance(e, ast.Attribute):
+        chain.append(e.attr)
+        e = e.value
+    if isinstance(e, ast.Name) and (e.id in self_names or e.id in other_names) and len(chain) >= 2:
+        chain.reverse()
+        return ("self" if e.id in self_names else "other", chain[0], ".".join(chain[1:]))
+    return None
+
+
 def hash_fields(fi: FuncInfo) -> set[str]:
     out = set()
     p0 = fi.params[0]
@@ -860,6 +889,23 @@ def run(ctx):
                         extra = hf - sh.fields - {"__class__"}
                 except AnalysisError:
                     pass
+            # a field both sides look at through the same view (`x.operation.operation_id` in __eq__'s key and in
+            # the hash) cannot make equal objects hash differently
+            import re as _re
+
+            for f_ in sorted(extra & set(sh.weak)):
+                view_ = sh.weak[f_]
+                if not view_.startswith("@."):
+                    continue
+                try:
+                    htxt = ast.unparse(ctx.norm.flat(h, depth=2).node)
+                except AnalysisError:
+                    htxt = ast.unparse(h.node)
+                me_ = _re.escape(h.params[0])
+                all_reads = len(_re.findall(rf"(?<![\w.]){me_}\.{_re.escape(f_)}(?!\w)", htxt))
+                same_view = len(_re.findall(rf"(?<![\w.]){me_}\.{_re.escape(f_)}{_re.escape(view_[1:])}(?!\w)", htxt))
+                if all_reads and all_reads == same_view:
+                    extra = extra - {f_}
             if extra and not sh.unknown:
                 chk.violation(
                     "R15.b", h, h.node.body[-1],
